@@ -433,7 +433,79 @@ def execute_kafka(case):
     return Result(v, nontrivial=True, classes=["kafka-source"])
 
 
-PARTS = [Part("kafka-source", None, execute_kafka, quick=0, thorough=0, shards=1,
+def enumerate_blocking(tier):
+    for chain in (["map_async"], ["buffer", "map_async"], ["map_async", "map_async"],
+                  ["map_async", "buffer"], ["buffer"], ["delay"], ["rate_limit", "map_async"]):
+        for start in (False, True):
+            yield {"blocking": True, "chain": chain, "start": start}
+
+
+def execute_blocking(case):
+    """a blocking pipeline (nothing declared) in operation: every callback - mapped coroutine,
+    consumer - runs on the thread of the pipeline's own (shared background) loop and the results
+    arrive, also after start() was called on it from the caller's thread"""
+    import time as _t
+    job_threads, seen = [], []
+
+    async def job(x):
+        job_threads.append(threading.get_ident())
+        return x + 1
+    src = Stream()
+    node, n_jobs = src, 0
+    for k in case["chain"]:
+        if k == "map_async":
+            node = node.map_async(job)
+            n_jobs += 1
+        elif k == "buffer":
+            node = node.buffer(4)
+        elif k == "delay":
+            node = node.delay(0.005)
+        else:
+            node = node.rate_limit(0.001)
+    sk = node.sink(lambda x: seen.append((x, threading.get_ident())))
+    v = []
+    what = "Stream()." + ".".join(case["chain"]) + ".sink" + (" + start()" if case["start"] else "")
+    loop = node.loop
+    tid, ev = [], threading.Event()
+    loop.add_callback(lambda: (tid.append(threading.get_ident()), ev.set()))
+    ev.wait(10)
+    if not tid or tid[0] == threading.get_ident():
+        return Result([("%s:blocking:no-background-loop-thread" % ID, what)], nontrivial=True)
+    if case["start"]:
+        sk.start()      # "Start any upstream sources": reaches every node above the sink
+    n = 4
+
+    def produce():
+        for i in range(n):
+            src.emit(i)
+    th = threading.Thread(target=produce, daemon=True)
+    th.start()
+    th.join(20)
+    t0 = _t.time()
+    while len(seen) < n and _t.time() - t0 < 20:
+        _t.sleep(0.005)
+    if th.is_alive() or len(seen) < n:
+        # (elapsed real time enters this verdict: 20 s for work that takes milliseconds)
+        return Result([("%s:blocking:%s" % (ID, "emit-never-returns" if th.is_alive()
+                                          else "results-never-delivered"),
+                        "%s: %d of %d results after 20 s, producer thread %s" % (
+                            what, len(seen), n, "blocked in emit" if th.is_alive() else "done"))],
+                      nontrivial=True, abort=True)
+    if [x for x, _ in seen] != [i + n_jobs for i in range(n)]:
+        v.append(("%s:blocking:wrong-results" % ID, "%s: %s" % (what, [x for x, _ in seen])))
+    off = [t for t in job_threads + [t for _, t in seen] if t != tid[0]]
+    if off:
+        v.append(("%s:blocking:callback-off-the-pipeline-loop" % ID,
+                  "%s: %d callbacks ran on another thread than the pipeline's loop" % (
+                      what, len(off))))
+    sk.destroy()
+    return Result(v, nontrivial=True, classes=["blocking-runtime"] +
+                  (["start-from-caller-thread"] if case["start"] else []))
+
+
+PARTS = [Part("blocking-runtime", None, execute_blocking, quick=0, thorough=0, shards=1,
+              exhaustive=enumerate_blocking),
+         Part("kafka-source", None, execute_kafka, quick=0, thorough=0, shards=1,
               exhaustive=enumerate_kafka),
          Part("configs", None, execute, quick=0, thorough=0, shards=1, exhaustive=enumerate_configs),
          Part("dask-default-client", None, execute_with_client, quick=0, thorough=0, shards=1,
